@@ -40,6 +40,9 @@ func BuildParsingTable(G *grammar.CFG) (*ParsingTable, error) {
 	 *      then set M[A,a] to error (can be represented by an empty entry in the table).
 	 */
 
+	// Work on a copy so that the caller's grammar is left unmodified.
+	G = G.Clone()
+
 	// A special symbol used to indicate the end of a string.
 	G.Terminals.Add(grammar.Endmarker)
 
